@@ -90,7 +90,7 @@ Required(e) ==
 \*   | no_xmldecl | no_doctype | bad_version | blank_first_line | doctype_quotes
 HeaderOK(m) == m.kind \notin {"no_xmldecl", "no_doctype", "bad_version", "blank_first_line"}
 Accepts(v, m) ==
-  CASE m.kind \in {"none", "requote", "reorder", "doctype_quotes", "comment", "redump"} -> TRUE
+  CASE m.kind \in {"none", "requote", "reorder", "doctype_quotes", "comment", "redump", "charref"} -> TRUE
     [] m.kind = "drop_attr" -> m.attr \notin Required(m.elem)
     [] m.kind = "rename" -> FALSE
     [] m.kind = "foreign_elem" -> m.elem \in ElemsOf(v)
@@ -98,7 +98,7 @@ Accepts(v, m) ==
     [] m.kind = "unbalance" -> FALSE
     [] OTHER -> HeaderOK(m)
 \* mutations that leave the document's meaning untouched
-Neutral(m) == m.kind \in {"none", "requote", "reorder", "doctype_quotes", "comment", "redump"}
+Neutral(m) == m.kind \in {"none", "requote", "reorder", "doctype_quotes", "comment", "redump", "charref"}
 
 \* what the pinned writer lost in addition: the metadata of examples
 DropExampleMeta(P) == [P EXCEPT !.sex = {Put(r, 7, "~") : r \in @}, !.yex = {Put(r, 6, "~") : r \in @}]
